@@ -15,7 +15,7 @@ RULE = ("(a) mask helper over tuples of 1..6 stacked lengths in 1..9 (quick: all
         "and beta>0 on a boundary, or a helper tuple with >=2 lengths; distinct by case hash")
 ASSUMPTIONS = ["beta_seen is observed by wrapping the labelling kernel attribute from the harness",
                "beta_seen == caller's unmasked beta is the recorded finding joint-boundary-priced; any other pricing is a violation"]
-SHARD_TIMEOUT = {"quick": 900, "thorough": 3400}
+SHARD_TIMEOUT = {"quick": 300, "thorough": 3400}
 MIX = {"joint:joint": 5, "joint:converge": 1, "joint:empty_final": 1}
 PROPS = ("C07",)
 
